@@ -2,5 +2,5 @@ package props
 
 import "verif/core"
 
-func c10SchemaCases() int           { return 0 }
-func c10Schema(c *core.Ctx, k int)  {}
+func c10SchemaCases() int          { return 0 }
+func c10Schema(c *core.Ctx, k int) {}
